@@ -226,6 +226,19 @@ CHECKS = {
              "judged without exemption.",
         technique="TLC trace validation of the same recordings under every host and loader path against one spec instance; cross-host text comparison",
     ),
+    "C11": dict(
+        category="fault_enumeration",
+        text="Spec S11 (Faults.tla): the fault actions Truncate(k), Mutate(i, b), Insert, Delete, SetLen on base files of four version classes (and small "
+             "real files in the thorough tier); TLC enumerates every single fault within the byte classes (FLAG_REF toggle, 0x00/0x7F/0xFF, marshal "
+             "type codes, adversarial 32-bit counts) and exports the faulty files. Each is loaded by load_module in a forked child under a 1 GiB "
+             "address-space limit, a 5 s alarm and an audit hook (exec/compile/import from the file, writes, process and socket events). The strict "
+             "reference reader (MarshalTrace.tla free-running) gives a verdict ok(v)/malformed for faults inside the payload; outcome must be the "
+             "7-tuple or ImportError, never another exception, timeout, memory error, or forbidden event; on the portable path a file the reader "
+             "still accepts must yield v.",
+        design_ref="DESIGN.md section 5 C11, spec S11",
+        note="Memory and time are measured, not modelled. RecursionError inside ImportError is accepted and counted. One recorded finding (native fast path allocation).",
+        technique="TLC-enumerated single faults replayed into load_module under resource limits and an audit hook; strict verdict from the TLA+ reference reader",
+    ),
 }
 
 NOT_YET = "check not built yet in this round (planned: see DESIGN.md section 5); not claimed until its machinery exists"
